@@ -26,6 +26,7 @@ private theorem nf_poslos2cart (r lat lon za aa : ℝ) (h : ¬ (|lat| > 90 - 1 /
              * (Real.sin (za * (Real.pi / 180)) * Real.cos (aa * (Real.pi / 180)))) := by
   have e : ∀ t : ℝ, 1 * (Real.pi / 180) * t = t * (Real.pi / 180) := fun t => by ring
   simp only [TR.geocentricposlos2cart, if_neg h, if_pos h, e]
+  <;> ring_nf
 
 private theorem nf_geocentric2cart (r lat lon : ℝ) :
     TR.geocentric2cart r lat lon =
@@ -33,6 +34,7 @@ private theorem nf_geocentric2cart (r lat lon : ℝ) :
        r * Real.cos (lat * (Real.pi / 180)) * Real.sin (lon * (Real.pi / 180)),
        r * Real.sin (lat * (Real.pi / 180))) := by
   simp only [TR.geocentric2cart]
+  <;> ring_nf
 
 private theorem nf_cartposlos_pos (x y z dx dy dz r lat lon : ℝ)
     (h : TR.cart2geocentric x y z = (r, lat, lon)) :
